@@ -132,6 +132,35 @@ fn c11_unitset_scale_to_power_of_unit_is_none() {
     let inv = UnitSet { units: vec![(Unit::Px, -1)] };
     assert!(a.scale_to(&inv).is_none(), "in does not convert to px^-1");
 }
+// K-snippet: the head of UnitSet::scale_to (which branch is taken), with the
+// compound branch — `quote.dimension()` builds a BTreeMap, out of CBMC's
+// reach — cut off and replaced by the marker `Some(-1.0)`.
+//@range file=rsass/src/value/unitset.rs impl="impl UnitSet" fn=scale_to until="let quote = self / other;"
+//@  header: fn snippet_scale_to_head(this: &UnitSet, other: &UnitSet) -> Option<f64>
+//@  subst: self => this
+//@  tail: Some(-1.0) }
+//@end
+
+/// C11: the single-unit shortcut of `scale_to` is taken exactly when the
+/// target is ONE unit with exponent 1 (1in is not a number of px^2, nor of
+/// px^-1: those go to the general branch, which compares dimensions).
+#[kani::proof]
+#[kani::unwind(6)]
+fn c11_unitset_scale_to_shortcut_needs_exponent_one() {
+    let a = UnitSet::from(Unit::In);
+    let p: i8 = kani::any();
+    kani::assume(p != 0);
+    let target = UnitSet { units: vec![(Unit::Px, p)] };
+    let r = snippet_scale_to_head(&a, &target);
+    if p == 1 {
+        assert!(r == Unit::In.scale_to(&Unit::Px), "in -> px: the single-unit conversion");
+    } else {
+        assert!(r == Some(-1.0), "in -> px^p (p != 1) is not the single-unit conversion");
+    }
+    let two = UnitSet { units: vec![(Unit::Px, 1), (Unit::S, 1)] };
+    assert!(snippet_scale_to_head(&a, &two) == Some(-1.0), "a compound target goes to the general branch");
+    assert!(snippet_scale_to_head(&a, &UnitSet::scalar()) == Unit::In.scale_to(&Unit::None), "a unitless target");
+}
 /// C11: `is_none` is true exactly for the unitless set.
 #[kani::proof]
 #[kani::unwind(4)]
